@@ -74,7 +74,7 @@ def gen_direct(rng):
     kind = rng.choice(['add', 'add', 'change', 'change', 'meta_indexes',
                        'meta_constraints', 'meta_together', 'rename',
                        'rename_model', 'delete', 'delete_model', 'type',
-                       'sql', 'move'])
+                       'sql', 'move', 'custom', 'custom', 'rename_app'])
     if kind == 'add':
         ft = rng.choice([models.CharField, models.IntegerField,
                          models.BooleanField, models.DecimalField,
@@ -178,13 +178,49 @@ def gen_direct(rng):
         out.append(M.DeleteModel('B'))
     elif kind == 'sql':
         out.append(M.DeleteField('A', 'c'))
+    elif kind == 'custom':
+        # field classes that are not in django.db.models have to be imported
+        # by the rendered text (two of them live in the same module)
+        from ..customfields import CodeField, TagField
+        which = rng.choice(['add', 'add2', 'change', 'both'])
+        if which in ('add', 'add2', 'both'):
+            out.append(M.AddField('A', 'z', TagField, max_length=10,
+                                  null=True))
+        if which in ('add2', 'both'):
+            out.append(M.AddField('A', 'z2', CodeField, max_length=12,
+                                  null=True))
+        if which in ('change', 'both'):
+            out.append(M.ChangeField('A', 'b', field_type=rng.choice(
+                [TagField, CodeField]), max_length=20, null=True))
+        feats.add('custom_field_' + which)
+    elif kind == 'rename_app':
+        out.append(M.RenameAppLabel('app1', 'app9', legacy_app_label='app1',
+                                    model_names=['A']))
+        feats.add('rename_app')
     elif kind == 'move':
         out.append(M.MoveToDjangoMigrations(mark_applied=rng.choice(
             [['0001_initial'], ['0001_initial', '0002_x']])))
         feats.add('move')
-    if rng.random() < 0.3 and kind not in ('delete_model', 'move'):
+    if rng.random() < 0.3 and kind not in ('delete_model', 'move',
+                                             'rename_app'):
         out.append(M.AddField('B', 'y', models.IntegerField, null=True))
     return out, sorted(feats)
+
+
+def gen_arith(rng, depth=0):
+    """Combined expressions over the integer columns, nested on either
+    side (grouping matters: (a + c) * d, a - (c - d))."""
+    from django.db.models import F, Value
+    if depth >= 2 or rng.random() < 0.3:
+        return rng.choice([F('a'), F('c'), F('d'), Value(2), Value(7)])
+    left = gen_arith(rng, depth + 1)
+    right = gen_arith(rng, depth + 1)
+    op = rng.choice(['+', '-', '*'])
+    if op == '+':
+        return left + right
+    if op == '-':
+        return left - right
+    return left * right
 
 
 def gen_q_base(rng, depth=0):
@@ -199,7 +235,9 @@ def gen_q_base(rng, depth=0):
         elif lookup == 'c__isnull':
             val = rng.choice([True, False])
         else:
-            val = rng.choice([0, 1, -5, F('d'), Value(3)])
+            val = rng.choice([0, 1, -5, F('d'), Value(3), None, None])
+            if val is None:
+                val = gen_arith(rng)
         q = Q(**{lookup: val})
     elif r < 0.55:
         q = gen_q_base(rng, depth + 1) & gen_q_base(rng, depth + 1)
@@ -344,6 +382,15 @@ def run_case(desc):
             stats['effects_compared'] = stats.get('effects_compared', 0) + 1
             _eq, d1, d2, t1, t2 = siglab.sig_equal(s1, s2)
             sig_item = None
+            um1 = [(a.app_id, a.upgrade_method, sorted(
+                a.applied_migrations or [])) for a in s1.app_sigs]
+            um2 = [(a.app_id, a.upgrade_method, sorted(
+                a.applied_migrations or [])) for a in s2.app_sigs]
+            if um1 != um2:
+                items.append({'type': 'SIG_EFFECT_DIFF', 'sql_same': None,
+                              'diff': 'upgrade method / applied migrations: '
+                                      '%r vs %r' % (um1, um2),
+                              'what': 'applied_migrations'})
             if not (d1 and d2):
                 sig_item = {'type': 'SIG_EFFECT_DIFF',
                             'diff': (t1 or t2)[:300], 'sql_same': None}
